@@ -127,6 +127,8 @@ enum Node {
     /// 28: `move || local.get().map(|_| child)`: synchronous read of a `LocalResource` (None on
     /// the server; tells the enclosing `<Suspense>` that it can never resolve)
     LocalRead(Box<Node>),
+    /// 29: a keyed list (`tachys::view::keyed::keyed`, what `<For>` renders): items keyed by index
+    Keyed(Vec<Node>),
 }
 
 fn parse(s: &Sexp) -> Node {
@@ -168,6 +170,7 @@ fn parse(s: &Sexp) -> Node {
         24 => Node::WithAttr(Box::new(parse(s.at(1)))),
         25 => Node::SuspendAttr(s.at(1).num() as u32, Box::new(parse(s.at(2)))),
         28 => Node::LocalRead(Box::new(parse(s.at(1)))),
+        29 => Node::Keyed(s.list()[1..].iter().map(parse).collect()),
         13 => Node::Res(s.at(1).num() as u32, Box::new(parse(s.at(2)))),
         14 => Node::LocalSuspend {
             f: s.at(1).num() as u32,
@@ -206,7 +209,9 @@ fn kids(n: &Node) -> Vec<&Node> {
         Node::LocalSuspend { content, .. } => vec![content],
         Node::Suspense(a, b, _) | Node::Transition(a, b, _) => vec![a, b],
         Node::Boundary { fallback, content, .. } => vec![fallback, content],
-        Node::Tuple(cs) | Node::VecOf(cs) | Node::Seq(_, cs) | Node::ElemN(_, cs) => cs.iter().collect(),
+        Node::Tuple(cs) | Node::VecOf(cs) | Node::Seq(_, cs) | Node::ElemN(_, cs) | Node::Keyed(cs) => {
+            cs.iter().collect()
+        }
         Node::Opt(c) => c.iter().map(|c| &**c).collect(),
     }
 }
@@ -591,6 +596,12 @@ fn build(n: &Node, rxs: &Rxs) -> AnyView {
                 }
                 _ => build(c, rxs).add_any_attr(attr).into_any(),
             }
+        }
+        Node::Keyed(cs) => {
+            let (cs, rxs) = (cs.clone(), rxs.clone());
+            let items: Vec<usize> = (0..cs.len()).collect();
+            tachys::view::keyed::keyed(items, |i: &usize| *i, move |_, i: usize| (|_: usize| (), build(&cs[i], &rxs)))
+                .into_any()
         }
         Node::LocalRead(c) => {
             use leptos::prelude::*;
